@@ -138,17 +138,19 @@ KNOWN_FNS: dict[Callable, sympy.Expr] = {
     np.exp: sympy.exp,
     np.floor: sympy.floor,
     np.gcd: sympy.gcd,
-    np.greater: sympy.GreaterThan,
+    np.greater: sympy.StrictGreaterThan,
     np.greater_equal: sympy.Ge,
     np.invert: sympy.invert,
     np.lcm: sympy.lcm,
-    np.less: sympy.LessThan,
+    np.less: sympy.StrictLessThan,
     np.less_equal: sympy.Le,
     np.log: sympy.log,
-    np.maximum: sympy.maximum,
-    np.minimum: sympy.minimum,
+    # element-wise maximum / minimum of the arguments (sympy.maximum / sympy.minimum are
+    # the extrema of a function over a symbol)
+    np.maximum: sympy.Max,
+    np.minimum: sympy.Min,
     np.mod: sympy.Mod,
-    np.positive: sympy.Abs,
+    np.positive: sympy.Id,  # +x, not |x|
     np.power: sympy.Pow,
     np.sign: sympy.sign,
     np.sin: sympy.sin,
